@@ -106,7 +106,7 @@ func runC15Conn(x *Exec) {
 				return
 			}
 		}
-		base := T0.Add(24 * time.Hour) // explicit write times and deadlines live a day after the fake clock's start
+		base := T0.Add(24 * time.Hour)                                                                // explicit write times and deadlines live a day after the fake clock's start
 		fmtSec := func(t time.Time) string { return t.UTC().Format("2006-01-02 15:04:05.999999999") } // fraction only when there is one
 		for oi, op := range p.Ops {
 			if x.Failed() || w.Viol != nil {
